@@ -96,6 +96,7 @@ type inst struct {
 	tmDelay  uint64
 	tmOldRev bool          // installed in the NEXT revision at a low height: the headers that follow are fill-ins of the previous revision
 	tss      *core.Account // current TSS account
+	tssCfg   *tsstypes.Header // the configuration the client was last given (install or accepted update)
 	flaw     string        // non-empty: the content was built to be uninitialisable
 }
 
@@ -271,7 +272,8 @@ func ethInst(rng *rand.Rand, c *ethChain, f *evmFact, blockDelay uint64) *inst {
 func (e *env) tssInst(rng *rand.Rand, acc *core.Account) *inst {
 	src, dst, seq := e.nextFact()
 	cs := &tsstypes.ClientState{TssAddress: acc.Bech32(), Pubkey: rnd(rng, 33), PartPubkeys: [][]byte{rnd(rng, 33), rnd(rng, 33), rnd(rng, 33)}, Threshold: 2}
-	return &inst{typ: tTSS, cs: cs, cons: &tsstypes.ConsensusState{}, installed: clienttypes.Height{}, src: src, dst: dst, seq: seq, commitment: rnd(rng, 32), proof: []byte(acc.Bech32()), tss: acc}
+	return &inst{typ: tTSS, cs: cs, cons: &tsstypes.ConsensusState{}, installed: clienttypes.Height{}, src: src, dst: dst, seq: seq, commitment: rnd(rng, 32), proof: []byte(acc.Bech32()), tss: acc,
+		tssCfg: &tsstypes.Header{TssAddress: cs.TssAddress, Pubkey: cs.Pubkey, PartPubkeys: cs.PartPubkeys, Threshold: cs.Threshold}}
 }
 
 // flawedInst builds contents that pass ValidateBasic but that the type's own initialisation cannot accept.
@@ -367,8 +369,12 @@ func (e *env) nextHeader(rng *rand.Rand, in *inst) (hdr exported.Header, signer 
 			next = e.tssAccs[rng.Intn(len(e.tssAccs))]
 		}
 		h := &tsstypes.Header{TssAddress: next.Bech32(), Pubkey: rnd(rng, 33), PartPubkeys: [][]byte{rnd(rng, 33), rnd(rng, 33)}, Threshold: 2}
+		if cfg := in.tssCfg; cfg != nil && next == in.tss && rng.Intn(2) == 0 {
+			// a resharing: same account, same group key, other key shares and threshold - still a new configuration
+			h = &tsstypes.Header{TssAddress: cfg.TssAddress, Pubkey: append([]byte{}, cfg.Pubkey...), PartPubkeys: [][]byte{rnd(rng, 33), rnd(rng, 33), rnd(rng, 33), rnd(rng, 33)}, Threshold: cfg.Threshold%3 + 2}
+		}
 		cur := in.tss
-		return h, cur, func() { in.tss = next; in.proof = []byte(next.Bech32()) }, nil
+		return h, cur, func() { in.tss = next; in.proof = []byte(next.Bech32()); in.tssCfg = h }, nil
 	}
 	return nil, nil, nil, fmt.Errorf("unknown type %s", in.typ)
 }
